@@ -148,6 +148,16 @@ theorem step_domInv (s : Inst) (op : Op) (h : DomInv s) : DomInv (step s op).1 :
     have fr := multisign_frame s c ip items []
     exact ⟨by simp only [step]; rw [fr.2.1]; exact h.att, by simp only [step]; rw [fr.2.2]; exact h.prop⟩
   | restart => exact h
+  | importRec k r => exact ⟨h.att, h.prop⟩
+  | importCmd gvr f =>
+    have fr := step_importCmd_frame s gvr f
+    exact ⟨by rw [fr.2.1]; exact h.att, by rw [fr.2.2.1]; exact h.prop⟩
+  | create c p pk =>
+    have fr := step_create_frame s c p pk
+    exact ⟨by rw [fr.2.1]; exact h.att, by rw [fr.2.2.1]; exact h.prop⟩
+  | setUnlockable w n b => exact ⟨h.att, h.prop⟩
+  | lockWallet c w => exact h
+  | unlockWallet c w => exact h
 
 theorem run_domInv (ops : List Op) : ∀ (s : Inst), DomInv s → DomInv (run s ops) := by
   induction ops with
